@@ -3479,10 +3479,29 @@ impl<'a, R: FileManager> FrontendCtx<'a, R> {
         if matches!(k.optional, Some(TruePlusMinus::Minus)) {
             return self.error(&anchor, DiagnosticInfoMessage::MappedTypeMinusNotSupported);
         }
-        let make_opt = |ty: Runtype| -> Optionality<Runtype> {
+        // a mapped type over `keyof T` is homomorphic: it keeps the optional modifier of T's properties
+        let mut source_optional_keys: BTreeSet<String> = BTreeSet::new();
+        if let TsType::TsTypeOperator(TsTypeOperator {
+            op: TsTypeOperatorOp::KeyOf,
+            type_ann: source,
+            ..
+        }) = constraint
+        {
+            if let Ok(source) = self.extract_type(source, file_name.clone()) {
+                if let Ok(source_vs) = self.extract_object_from_runtype(&source, &anchor) {
+                    for (source_key, source_value) in source_vs {
+                        if matches!(source_value, Optionality::Optional(_)) {
+                            source_optional_keys.insert(source_key);
+                        }
+                    }
+                }
+            }
+        }
+        let make_opt = |ty: Runtype, source_optional: bool| -> Optionality<Runtype> {
             match k.optional {
                 // `+?` is the explicit spelling of `?`
                 Some(TruePlusMinus::True) | Some(TruePlusMinus::Plus) => Optionality::Optional(ty),
+                _ if source_optional => Optionality::Optional(ty),
                 _ => Optionality::Required(ty),
             }
         };
@@ -3495,7 +3514,8 @@ impl<'a, R: FileManager> FrontendCtx<'a, R> {
             let ty = self.extract_type(type_ann, file_name.clone());
             self.type_application_stack.pop();
             let ty = ty?;
-            vs.insert(key, make_opt(ty));
+            let source_optional = source_optional_keys.contains(&key);
+            vs.insert(key, make_opt(ty, source_optional));
         }
 
         let indexed_properties = if infinite_keys.is_empty() {
@@ -3509,7 +3529,7 @@ impl<'a, R: FileManager> FrontendCtx<'a, R> {
             let ty = ty?;
             Some(Box::new(IndexedProperty {
                 key: key_runtype,
-                value: make_opt(ty),
+                value: make_opt(ty, false),
             }))
         };
 
